@@ -1356,7 +1356,15 @@ def _finalize_results(
         )
         finalized["groups"] = expected_groups
     else:
-        finalized["groups"] = squeezed["groups"]
+        groups = squeezed["groups"]
+        if expected_groups is None:
+            # labels discovered at compute time: when every label is missing the blocks only report
+            # the NaN placeholder group, which is not a group
+            keep = notnull(groups)
+            if not keep.all():
+                finalized[agg.name] = finalized[agg.name][..., keep]
+                groups = groups[keep]
+        finalized["groups"] = groups
 
     finalized[agg.name] = finalized[agg.name].astype(agg.dtype["final"], copy=False)
     return finalized
